@@ -239,7 +239,9 @@ static void window_model(const std::string & dir, int nmax, Result & R)
         std::ofstream out(fn);
         out.precision(15);
         for (int k = 0; k < splits[si][f]; k++) {
-          write_record(out, id, stream_event(id));
+          // (shape 2: every record carries the identifier 0 - identifiers are not part of the event; files made of several runs
+          //  repeat them)
+          write_record(out, g_shape == 2 ? 0 : id, stream_event(id));
           id++;
         }
         // an empty file is either zero bytes or only white space
